@@ -42,6 +42,24 @@ struct World {
     now: i64,
     sub_real: HashMap<i64, u32>,
     sub_model: HashMap<u32, i64>,
+    item_samp: HashMap<(i64, i64), i64>,
+}
+
+fn real_item(w: &World, sm: i64, id: u32, item: i64) -> u32 {
+    // find the real monitored item id through the client handle
+    let want = (sm * 100 + item) as u32;
+    let mut real_item = 0;
+    if let Some(sess) = w.c.session() {
+        let sess = sess.read();
+        for x in sess.verif_subscriptions().subscriptions.iter().filter(|x| x.id == id) {
+            for it in &x.items {
+                if it.client_handle == want {
+                    real_item = it.id;
+                }
+            }
+        }
+    }
+    real_item
 }
 
 impl World {
@@ -213,6 +231,7 @@ fn step(w: &mut World, s: &Value) -> (Vec<Value>, Vec<Value>) {
                 _ => MonitoringMode::Reporting,
             };
             let samp = geti(s, "samp");
+            w.item_samp.insert((sm, geti(s, "item")), samp);
             let item = MonitoredItemCreateRequest {
                 item_to_monitor: ReadValueId {
                     node_id: node(geti(s, "node")),
@@ -245,23 +264,35 @@ fn step(w: &mut World, s: &Value) -> (Vec<Value>, Vec<Value>) {
         "DeleteItem" => {
             let sm = geti(s, "sub");
             let id = *w.sub_real.get(&sm).unwrap_or(&0);
-            // find the real monitored item id through the client handle
-            let want = (sm * 100 + geti(s, "item")) as u32;
-            let mut real_item = 0;
-            if let Some(sess) = w.c.session() {
-                let sess = sess.read();
-                for x in sess.verif_subscriptions().subscriptions.iter().filter(|x| x.id == id) {
-                    for it in &x.items {
-                        if it.client_handle == want {
-                            real_item = it.id;
-                        }
-                    }
-                }
-            }
+            let real_item = real_item(w, sm, id, geti(s, "item"));
             let req = DeleteMonitoredItemsRequest {
                 request_header: w.c.header(),
                 subscription_id: id,
                 monitored_item_ids: Some(vec![real_item]),
+            };
+            let _ = w.c.call1(req.into());
+            (vec![], vec![])
+        }
+        "ModifyItem" => {
+            let sm = geti(s, "sub");
+            let id = *w.sub_real.get(&sm).unwrap_or(&0);
+            let item = geti(s, "item");
+            let ri = real_item(w, sm, id, item);
+            let samp = *w.item_samp.get(&(sm, item)).unwrap_or(&-1);
+            let req = ModifyMonitoredItemsRequest {
+                request_header: w.c.header(),
+                subscription_id: id,
+                timestamps_to_return: TimestampsToReturn::Both,
+                items_to_modify: Some(vec![MonitoredItemModifyRequest {
+                    monitored_item_id: ri,
+                    requested_parameters: MonitoringParameters {
+                        client_handle: (sm * 100 + item) as u32,
+                        sampling_interval: if samp < 0 { -1.0 } else { (samp * UNIT_MS) as f64 },
+                        filter: ExtensionObject::null(),
+                        queue_size: geti(s, "qsize") as u32,
+                        discard_oldest: getb(s, "dold"),
+                    },
+                }]),
             };
             let _ = w.c.call1(req.into());
             (vec![], vec![])
@@ -364,7 +395,7 @@ pub fn run_case(case: &Value, out: &mut Obs) {
         }
         // whole seconds: OPC UA DateTime has 100 ns ticks, the clock must survive the conversion exactly
         let base = CDateTime::<Utc>::from_timestamp(Utc::now().timestamp(), 0).unwrap();
-        let mut w = World { c, base, now: 0, sub_real: HashMap::new(), sub_model: HashMap::new() };
+        let mut w = World { c, base, now: 0, sub_real: HashMap::new(), sub_model: HashMap::new(), item_samp: HashMap::new() };
         let empty = vec![];
         let steps = case.get("steps").and_then(|s| s.as_array()).unwrap_or(&empty);
         for (i, s) in steps.iter().enumerate() {
